@@ -51,7 +51,12 @@ func (f *fetcher) handleUpstream304(req *http.Request, key cache.CacheKey) (cach
 	}
 
 	slog.Debug("Successfully revalidated cache metadata", "url", req.URL, "key", key)
-	return f.cache.Get(key)
+	cached, err = f.cache.Get(key)
+	if err != nil {
+		// The entry was removed after its lifetime was renewed
+		return nil, fmt.Errorf("%w: %v", ErrUpdateCacheMetadata, err)
+	}
+	return cached, nil
 }
 
 func (f *fetcher) handleUpstream200(req *http.Request, resp *http.Response, key cache.CacheKey, upstreamHd *headers.HeaderDirectives) (cached *cache.Entry[cachedRequestInfo], err error) {
@@ -164,6 +169,13 @@ func (f *fetcher) fetchUpstream(req *http.Request, key cache.CacheKey, clientHd 
 	if err != nil {
 		resp.Body.Close()
 		slog.Error("Error handling upstream response after cache miss", "url", req.URL, "error", err)
+		if errors.Is(err, ErrCacheResponseFailed) || errors.Is(err, ErrUpdateCacheMetadata) {
+			// The origin answered; only the cache could not store the answer or renew the entry
+			// (no room, empty body, write failure, entry removed meanwhile). That must not fail
+			// the request: the caller answers it with a direct fetch.
+			metrics.Global.Cache.CacheErrors.Increment()
+			return fetchResult{}, ErrNotCacheable
+		}
 		return fetchResult{}, err
 	}
 
@@ -298,7 +310,12 @@ func (f *fetcher) dedupFetch(req *http.Request, key cache.CacheKey, clientHd *he
 		slog.Debug("Request can't be coalesced, fetching upstream...")
 		metrics.Global.Requests.NonCoalescedRequests.Increment()
 
-		return f.fetchUpstream(req, key, clientHd)
+		fetched, err = f.fetchUpstream(req, key, clientHd)
+		if errors.Is(err, ErrNotCacheable) {
+			slog.Debug("Response could not be cached, falling back to direct fetch", "url", req.URL)
+			return f.fetchDirectlyFromUpstream(req)
+		}
+		return fetched, err
 	}
 
 	originalClientHd := *clientHd // Copy the original client headers so the shared requests don't get a modified version
